@@ -132,6 +132,19 @@ fn walk(v: &CV, texts: &[String], path: &mut Vec<Seg>, out: &mut Vec<Point>, dep
             out.push(Point { path: path.clone(), m: Mut::Replace(x), tag: t });
         }
     }
+    // empty / singleton containers
+    if depth > 0 {
+        match v {
+            CV::Map(m) if !m.is_empty() => out.push(Point { path: path.clone(), m: Mut::Replace(CV::Map(BTreeMap::new())), tag: "empty-container" }),
+            CV::Array(a) if !a.is_empty() => {
+                out.push(Point { path: path.clone(), m: Mut::Replace(CV::Array(vec![])), tag: "empty-container" });
+                if a.len() > 1 {
+                    out.push(Point { path: path.clone(), m: Mut::Replace(CV::Array(vec![a[0].clone()])), tag: "empty-container" });
+                }
+            }
+            _ => {}
+        }
+    }
     match v {
         CV::Map(m) => {
             let keys: Vec<CV> = m.keys().cloned().collect();
@@ -629,6 +642,9 @@ fn run_blind<S: ShortGroupSignatureScheme>(v: &Value) -> Value {
                 Ok(r) => {
                     let mut iss = issuer.clone();
                     out = class(catch_unwind(AssertUnwindSafe(|| iss.blind_sign_credential(&r, &known))));
+                    if out != "panic" && class(catch_unwind(AssertUnwindSafe(|| r.verify(&issuer)))) == "panic" {
+                        out = "panic";
+                    }
                 }
                 Err(e) => decode_err = Some(e),
             },
